@@ -241,8 +241,11 @@ func (vc *VC) evalAddrOf(s *State, x *ast.UnaryExpr) *Term {
 			return s.env[obj]
 		}
 	case *ast.SelectorExpr:
-		// &p.f : interior pointer. Supported only as an opaque derived reference for struct-valued fields? not supported.
-		vc.unsupported(x, "address of field "+exprStr(y))
+		// &p.f : interior pointer, modelled as an opaque non-nil reference (writes through it are not reflected
+		// in the field; listed as an abstraction)
+		vc.eval(s, y.X)
+		vc.prog.Abstracted["interior pointer &"+exprStr(y)+" is opaque (writes through it are not reflected in the field) in "+shortKey(vc.fn.Key)] = true
+		return vc.allocRef(s, "interior", typeID(vc.typeOf(y)))
 	case *ast.IndexExpr:
 		vc.unsupported(x, "address of element "+exprStr(y))
 	}
